@@ -36,3 +36,35 @@ let run inp obs : string option * string option =
     else (Some (Printf.sprintf "client cancelled (%s, %s, handler waiting on %s) but the handler was not released: %s" front shape point kind), None)
   | _ -> (Some "unparsable C15 case", None)
 let () = Evalreg.register "C15" run
+
+(* C15E <d ns> ; <grpc-timeout header hex>: what a grpc-go client writes for a context with d ns left.
+   The time left when the header is written is a little below d, so the value is compared as an interval, and the
+   choice of unit through the model: the observed (value, unit) is what TimeoutForward.encode_duration gives for value x unit *)
+let run_e inp obs : string option * string option =
+  match inp, obs with
+  | ["C15E"; d], [h] when h <> "none" ->
+    let s = bytes_str (bytes_of_hex h) in
+    let n = String.length s in
+    let unit_of = function 'n' -> Some 1 | 'u' -> Some 1_000 | 'm' -> Some 1_000_000 | 'S' -> Some 1_000_000_000
+                         | 'M' -> Some 60_000_000_000 | 'H' -> Some 3_600_000_000_000 | _ -> None in
+    let what = Printf.sprintf "a grpc-go client with %s ns left wrote grpc-timeout %S" d s in
+    if n < 2 || n > 9 then (Some (what ^ ": not 1..8 digits and a unit"), None) else
+    let digits = String.sub s 0 (n - 1) in
+    let all_digits = digits <> "" && Stdlib.String.for_all (fun c -> c >= '0' && c <= '9') digits in
+    (match unit_of s.[n - 1] with
+     | Some u when all_digits ->
+       let module Z = BinInt.Z in
+       let zi i = z_of_string (string_of_int i) in
+       let dz = z_of_string d and vz = z_of_string digits and uz = zi u in
+       let prod = Z.mul vz uz in
+       let (mv, mu) = TimeoutForward.encode_duration prod in
+       (* two seconds of slack below: the header is written some time after the context was made *)
+       if not (Z.leb prod (Z.add dz uz)) || not (Z.leb (Z.sub dz (zi 2_000_000_000)) prod) then
+         (None, Some (what ^ ": outside [d - 2 s, d + one unit] (model: the time left rounded up in the unit chosen)"))
+       else if mv <> vz || mu <> uz then
+         (None, Some (what ^ Printf.sprintf ": the model of EncodeDuration writes %d x %d ns for that duration" (int_of_z mv) (int_of_z mu)))
+       else (None, None)
+     | _ -> (Some (what ^ ": not a legal timeout"), None))
+  | ["C15E"; d], ["none"] -> (Some ("no request reached the recording server for a call with " ^ d ^ " ns left"), None)
+  | _ -> (Some "unparsable C15E case", None)
+let () = Evalreg.register "C15E" run_e
